@@ -94,6 +94,11 @@ def step (s : St) : List String → St × String
     match n.toNat? with
     | some k => ({ s with open_ := k }, "open " ++ toString k)
     | none => (s, "bad-op")
+  | ["busy", k] =>
+    -- k of the open sessions carry a proxied connection: no input of the rebalance decision
+    match k.toNat? with
+    | some n => if n ≤ s.open_ then (s, "busy " ++ toString n) else (s, "bad-op")
+    | none => (s, "bad-op")
   | ["rebalance", mode] =>
     if !s.hasCfg then (s, "bad-op") else
     match serverRebalance s.cfg s.cs s.open_ with
